@@ -65,6 +65,8 @@ def _shapes(tier):
         out.extend(itertools.product(range(1, top + 1), repeat=rank))
     if tier == "thorough":
         out.extend(itertools.product((1, 2), repeat=4))
+    # long profiles / many profiles (sizes where a block-wise or pairwise reduction behaves differently)
+    out.extend([(300,), (130, 2), (2, 130), (65, 3, 2), (2, 3, 257)])
     return out
 
 
@@ -76,7 +78,7 @@ def BOUNDS(tier):
     return {"wavelengths": sorted(_lams(tier)) + ["default"], "r0": R0S, "cn2": CN2S, "seeing": SEEINGS, "heights": HEIGHTS,
             "winds": WINDS, "magnitudes": MAGS, "bands": BANDS, "masks": "all 64 binary masks of a 2x3 grid",
             "pixel_scales": PIXEL_SCALES, "exposures": EXPOSURES, "wvlBands": WVLBANDS,
-            "profile_shapes": "all shapes of rank 1..3 with axis lengths 1..%d%s (%d shapes), every axis in -rank..rank-1"
+            "profile_shapes": "all shapes of rank 1..3 with axis lengths 1..%d%s (%d shapes incl. 5 long ones: 300 layers, 130 / 257 profiles), every axis in -rank..rank-1"
             % (3 if tier == "quick" else 4, "" if tier == "quick" else " and of rank 4 with lengths 1..2", len(_shapes(tier))), "subap_diameters": SUBAP_DIAMS}
 
 
